@@ -13,9 +13,10 @@
 (* behaviour ends in one of Outcomes(pr) (the recursive definition and the *)
 (* explored state graph agree), CONFLUENCE for the programs classified     *)
 (* confluent, a behaviour that cannot continue belongs to a cyclic program *)
-(* and a cyclic program never completes, every position case is confluent. *)
+(* and a cyclic program never completes, every position case is confluent, *)
+(* every dead-code case (SyltDeadCode) is confluent.                       *)
 (***************************************************************************)
-EXTENDS SyltTypeOrder, Json, IOUtils
+EXTENDS SyltDeadCode, Json, IOUtils
 
 VARIABLES fam, id, pr, S, done, pc, exp
 vars == <<fam, id, pr, S, done, pc, exp>>
@@ -27,6 +28,10 @@ Mod4 == EnvInt("MOD", 1)        \* sampling modulus for the largest size only
 Seed == EnvInt("SEED", 1)
 WithPos == EnvInt("POS", 1) = 1
 WithTypes == EnvInt("TYPES", 1) = 1
+\* the dead-code families (SyltDeadCode): DEAD=1 switches them on, DEADMOD / DEADSELFMOD > 1 take the diagonal sample
+WithDead == EnvInt("DEAD", 1) = 1
+DeadMod == EnvInt("DEADMOD", 1)
+DeadSelfMod == EnvInt("DEADSELFMOD", 1)
 
 Cases == CasesOf(MinN, MaxN, Mod4, Seed)
 
@@ -36,6 +41,7 @@ ASSUME \A q \in Landmarks : Len(q) = 4 /\ WellFormed(q) /\ Sorted(q)
 ASSUME Cardinality(Universe(1)) = 6 /\ Cardinality(Universe(2)) = 62
 ASSUME Cardinality(Positions) = Len(PosNames)
 ASSUME Cardinality(TypeShapes) = Len(TypeShapeNames)
+ASSUME Cardinality(DeadCtxs) = Len(DeadCtxNames)
 \* every type shape has a good use and at least one planted ill-typed use
 ASSUME \A s \in TypeShapes : Len(TypeShape(s).plants) >= 1
 
@@ -49,6 +55,8 @@ Init ==
      \/ WithPos /\ fam = "unspec" /\ id \in UnspecCases /\ pr = PosProg(id)
      \/ WithPos /\ fam = "self" /\ id \in SelfCases /\ pr = SelfProg(id)
      \/ WithTypes /\ fam = "type" /\ id \in TypeCases /\ pr = TypeProg(id)
+     \/ WithDead /\ fam = "dead" /\ id \in DeadSelected(DeadMod, Seed) /\ pr = DeadProg(id)
+     \/ WithDead /\ fam = "deadself" /\ id \in DeadSelfSelected(DeadSelfMod, Seed) /\ pr = DeadSelfProg(id)
   /\ S = S0(pr) /\ done = {}
   /\ pc = IF NotRun(fam, id) THEN "notrun" ELSE "init"
   /\ exp = IF NotRun(fam, id) THEN {} ELSE Outcomes(pr)
@@ -96,6 +104,8 @@ BlockedOnlyIfCyclic == (pc = "init" /\ done # 1..NG(pr) /\ EnabledSet(pr, done, 
 CompleteEndsDone == pc = "ran" => S.status = "done"
 PositionCasesConfluent == fam = "pos" => Cardinality(exp) = 1
 SelfCasesCyclic == fam = "self" => exp = {}
+\* code that never runs needs nothing: the dead-code cases (also the self-referential ones) have exactly one result
+DeadCasesConfluent == fam \in {"dead", "deadself"} => Cardinality(exp) = 1
 \* the typing judgement of the specification agrees with the labels of the type family; good uses are confluent
 TypeLabels == fam = "type" => (TypeOk(pr) <=> ~IllTyped(id)) /\ (~IllTyped(id) => Cardinality(exp) = 1)
 =============================================================================
